@@ -79,6 +79,7 @@ type vfStorm struct {
 	written  map[[3]int]uint32 // (side, writer, sid) -> messages accepted
 	nextSeq  map[[3]int]uint32 // (receiving side's view) (side, writer, sid) -> next expected seq
 	received int64
+	lateLog  []string
 	cbRuns   atomic.Int64
 }
 
@@ -136,6 +137,12 @@ func (st *vfStorm) onRead(rside int, sid uint16, b []byte, ordered bool) {
 	st.received++
 	st.mu.Unlock()
 	if ordered && seq != want {
+		st.mu.Lock()
+		for _, l := range st.lateLog {
+			st.res.witness("%s", l)
+		}
+		st.mu.Unlock()
+		st.res.witness("read side=%d sid=%d writer=%d seq=%d want=%d at %v", rside, sid, writer, seq, want, st.sim.net.now())
 		st.res.violate("C01", "deliver/not-next", "side %d sid %d: message seq %d of writer %d delivered where seq %d was due (concurrent writers; per-writer order must hold on an ordered reliable stream)", rside, sid, seq, writer, want)
 	}
 }
@@ -459,6 +466,43 @@ func vfRunStorm(t *testing.T, spec *vfSpec, res *vfRes) {
 		}
 
 		// ---- phase 2: terminal storm while queries (and chaos writes) continue
+		// late writers: writes that race with Shutdown/Close/Abort and mostly fail (roll-back path); their
+		// messages are outside the delivery oracle's counts
+		for side := 0; side < 2; side++ {
+			side := side
+			for lw := 0; lw < 2; lw++ {
+				lw := lw
+				wgAll.Add(1)
+				go func() {
+					defer wgAll.Done()
+					lr := vfNewRand(vfHash(spec.Seed, uint64(side), uint64(lw), 0x1a7e))
+					seqs := make([]uint32, nData)
+					for i := 0; i < 400; i++ {
+						select {
+						case <-stop:
+							return
+						default:
+						}
+						di := lr.Intn(nData)
+						s := data[side][di]
+						seq := seqs[di]
+						msg := vfStormMsg(side, 200+lw, uint16(1+di), seq, 16+lr.Intn(2000)) //nolint:gosec
+						var err error
+						turn(side, uint16(1+di), func() { //nolint:gosec
+							st.call(0, "late", func() { _, err = s.WriteSCTP(msg, PayloadTypeWebRTCBinary) })
+						})
+						st.mu.Lock()
+						st.lateLog = append(st.lateLog, fmt.Sprintf("late write side=%d writer=%d sid=%d seq=%d len=%d at %v state=%d -> %v", side, 200+lw, 1+di, seq, len(msg), sim.net.now(), assoc[side].getState(), err))
+						st.mu.Unlock()
+						if err == nil {
+							seqs[di]++
+						}
+						st.call(6, "", func() { _ = s.BufferedAmount() })
+						time.Sleep(time.Duration(lr.Intn(1500)) * time.Microsecond)
+					}
+				}()
+			}
+		}
 		term := spec.XS["terminal"]
 		var wgTerm sync.WaitGroup
 		r0 := vfNewRand(spec.Seed ^ 0x7e)
